@@ -1797,6 +1797,18 @@ impl<'a> VisitMut for Annotator<'a> {
                         };
                         body.stmts.insert(0, st);
                     }
+                    if c.loops[&k].ghost_head.is_some() {
+                        let mid = syn::Ident::new(&format!("vx_ghost_loop_{}_{}", self.fn_idx, k), Span::call_site());
+                        let st: syn::Stmt = syn::parse_quote!(#mid!(););
+                        let body = match e { syn::Expr::While(w) => &mut w.body, syn::Expr::Loop(l) => &mut l.body, syn::Expr::ForLoop(f) => &mut f.body, _ => unreachable!() };
+                        body.stmts.insert(0, st);
+                    }
+                    if c.loops[&k].proof_tail.is_some() {
+                        let mid = syn::Ident::new(&format!("vx_tail_loop_{}_{}", self.fn_idx, k), Span::call_site());
+                        let st: syn::Stmt = syn::parse_quote!(#mid!(););
+                        let body = match e { syn::Expr::While(w) => &mut w.body, syn::Expr::Loop(l) => &mut l.body, syn::Expr::ForLoop(f) => &mut f.body, _ => unreachable!() };
+                        body.stmts.push(st);
+                    }
                 }
                 self.rules.insert("R5".into());
             }
@@ -3012,6 +3024,20 @@ fn main() {
                 let txt = contracts.fns[&key].proof_points[i].text.clone();
                 let opener = if contracts.fns[&key].proof_points[i].decl { "proof_decl! {" } else { "proof! {" };
                 push_line(&mut final_out, &mut line_no, &format!("{}{}", indent, opener));
+                for l in txt.lines() { push_line(&mut final_out, &mut line_no, &format!("{}    {}", indent, l)); }
+                push_line(&mut final_out, &mut line_no, &format!("{}}}", indent));
+                continue;
+            }
+            if let Some(rest) = parse_placeholder(trimmed, "vx_ghost_loop_", "!();").map(|r| (r, true)).or_else(|| parse_placeholder(trimmed, "vx_tail_loop_", "!();").map(|r| (r, false))) {
+                let (rest, is_ghost) = rest;
+                let mut it = rest.split('_');
+                let n: usize = it.next().unwrap().parse().unwrap();
+                let k: usize = it.next().unwrap().parse().unwrap();
+                let gi = idx_of_fnidx[&n];
+                let key = gen.fns[gi].key.clone();
+                let lc = &contracts.fns[&key].loops[&k];
+                let txt = if is_ghost { lc.ghost_head.clone().unwrap() } else { lc.proof_tail.clone().unwrap() };
+                push_line(&mut final_out, &mut line_no, &format!("{}{}", indent, if is_ghost { "proof_decl! {" } else { "proof! {" }));
                 for l in txt.lines() { push_line(&mut final_out, &mut line_no, &format!("{}    {}", indent, l)); }
                 push_line(&mut final_out, &mut line_no, &format!("{}}}", indent));
                 continue;
